@@ -164,7 +164,7 @@ class Env:
 
         def validator(conn, data):
             port = conn.sock.getpeername()[1]
-            b = env.vb.get(port) or {"kind": "accept", "value": "hello"}
+            b = env.vb.get(port) or env.vb.get(None) or {"kind": "accept", "value": "hello"}
             if b["kind"] == "raise":
                 raise env.exc[b["cls"]](b["msg"])
             if b["kind"] == "abort":
@@ -341,6 +341,14 @@ def build_message(spec):
     wfk = spec["wf"]
     flags = spec["flags"] & ~protocol.FLAGS_COMPRESSED
     compressed = bool(spec["flags"] & protocol.FLAGS_COMPRESSED)
+    if wfk.startswith("hdr:short"):
+        # fewer bytes than a header, and already wrong in the first six: the daemon can (and does) refuse without waiting for more
+        pad = bytes((spec["seq"] * 7 + i * 13) % 251 for i in range(spec.get("pad", 0) % 34))
+        if wfk == "hdr:short6":
+            return b"GET /\n"
+        if wfk == "hdr:shortver":
+            return b"PYRO" + struct.pack("!H", (protocol.PROTOCOL_VERSION + 1) & 0xffff) + pad
+        return b"HELO" + b"\r\n" + pad
     if wfk == "hdr:garbage":
         return (b"GET /pyro HTTP/1.1\r\nHost: localhost\r\nAccept: */*\r\n\r\n" + b"x" * 16)
     ann = None
@@ -488,7 +496,7 @@ def c_case(case, obs, cls):
             continue
         c, si = it
         o = obs["segs"][i]
-        msgs = clist([c_msg(m) for m in cls[i]])
+        msgs = clist([c_msg(m) for m in cls[i] if m.get("special") != "listen"])
         items.append("ISeg {| s_conn := %s; s_denied := %s; s_ins := %s; s_replies := %s; s_execs := %s; s_end := %s |}" % (
             cnat(c), cbool(case_env(case) == "poolfull"), msgs, clist([c_reply(r) for r in o["replies"]]),
             clist(["(%s, %s, %s)" % (cnat(e[0]), cbool(e[3]), cN(e[1])) for e in o["execs"]]),
@@ -528,7 +536,12 @@ def canon_reply(env, m, vbspec):
 def wait_oneway():
     for t in threading.enumerate():
         if type(t).__name__ == "_OnewayCallThread":
-            t.join(2.0)
+            for _ in range(200):
+                try:
+                    t.join(2.0)
+                    break
+                except RuntimeError:        # created but not started yet
+                    time.sleep(0.001)
 
 
 def quiesce(srv, base_busy=0, timeout=3.0):
@@ -674,6 +687,15 @@ def run_impl(env, case, probe=False):
             if ended.get(c):
                 cl.send(data)
                 seg["end"] = ended[c]
+            elif special and special["special"] == "listen":
+                # the peer has said all it is going to say and just waits for the daemon's verdict (no further bytes, no half-close)
+                cl.send(data)
+                seg["end"] = read_until(cl, env, conn, seg, None, tmo)
+                if seg["end"] == "garbage":
+                    obs["anomalies"].append({"seg": len(obs["segs"]), "what": "undecodable bytes from the daemon"})
+                    seg["end"] = "open"
+                else:
+                    ended[c] = seg["end"]
             elif special and special["special"] == "gone":
                 # the peer sends its last bytes (possibly a message cut short) and goes away; the receiving side stays open
                 cl.send(data + special_bytes(special))
@@ -710,6 +732,7 @@ def run_impl(env, case, probe=False):
                 seg["execs"].append([ports.get(port, 999), tok if isinstance(tok, int) and not isinstance(tok, bool) and tok >= 0 else 999999, meth, bool(isd)])
             obs["segs"].append(seg)
     finally:
+        log_end = len(EXEC_LOG)
         for cl in clients.values():
             env.vb.pop(cl.port, None)
             cl.close()
@@ -723,6 +746,12 @@ def run_impl(env, case, probe=False):
                 obs["anomalies"].append({"seg": -1, "what": "server did not release the connections of this case"})
             if not srv.loop_alive():
                 obs["anomalies"].append({"seg": -1, "what": "daemon request loop died: %r" % (srv.loop_exception,)})
+            # whatever ran after the peers saw their last answer / EOF (the daemon still working off bytes it should have dropped)
+            wait_oneway()
+            obs["late_execs"] = [[ports.get(port, 999), tok if isinstance(tok, int) and not isinstance(tok, bool) and tok >= 0 else 999999, meth, bool(isd)]
+                                 for (port, tok, meth, isd) in EXEC_LOG[log_end:]]
+            if obs["late_execs"]:
+                obs["anomalies"].append({"seg": -1, "what": "methods ran after the case was over: %s" % (obs["late_execs"],)})
     return obs
 
 
@@ -883,6 +912,12 @@ def oracle(env, case, obs, cls):
                 bad.append(("exec-without-handshake", "method %s(%s) ran for connection %d which never completed an accepted handshake" % (name, tok, ec)))
             elif ec != c_seg or tok not in sent:
                 bad.append(("exec-not-on-behalf", "method %s(%s) ran for connection %d while connection %d was sending" % (name, tok, ec, c_seg)))
+    for (ec, tok, meth, isd) in obs.get("late_execs", []):
+        name = ("Pyro.Daemon." if isd else "") + meth
+        if ec == 999 or ec not in connok_at or first_must_fail(case, ec, firsts[ec], reg_first[ec]):
+            bad.append(("exec-without-handshake", "method %s(%s) ran (after the peer had been told the outcome) for connection %s which never completed an accepted handshake" % (name, tok, ec)))
+        else:
+            bad.append(("exec-not-on-behalf", "method %s(%s) ran for connection %d after the case was over" % (name, tok, ec)))
     seen, out = set(), []
     for sig, what in bad:
         if sig not in seen:
@@ -1021,10 +1056,19 @@ class Gen:
         t["flags"] &= ~2
         return {"special": "gone", "trunc": t, "cut": rng.choice([0, 1, 3, 5, 6, 7, 20, 39, 40, 41, 47, 60, rng.randrange(0, 120)])}
 
+    def short_bad(self):
+        """fewer than 40 bytes that cannot be the beginning of a Pyro message; then the peer only listens"""
+        rng = self.rng
+        m = self.base(rng.choice([1, 1, 4, 6]), self.hs_payload(True), wf=rng.choice(["hdr:short6", "hdr:shorttag", "hdr:shortver"]))
+        m["pad"] = rng.randrange(0, 34)
+        return [m, {"special": "listen"}]
+
     def connection(self, gone_prob=0.12, first_special=0.05):
         rng = self.rng
         if rng.random() < first_special:
             return {"vb": gen_vb(rng), "segs": [[self.gone(True)]]}
+        if rng.random() < 0.04:
+            return {"vb": gen_vb(rng), "segs": [self.short_bad()] + ([[self.call()]] if rng.random() < 0.5 else [])}
         first = self.first_message()
         seg0 = [first]
         if rng.random() < 0.7:           # pipelined in the same TCP segment behind the first message
@@ -1035,6 +1079,8 @@ class Gen:
             segs.append([self.later_message() for _ in range(rng.choice([1, 1, 2, 3]))])
         if rng.random() < gone_prob:
             segs[-1].append(self.gone(False))
+        elif rng.random() < 0.04:
+            segs.append(self.short_bad())
         return {"vb": gen_vb(rng), "segs": segs}
 
     def timeout_case(self, sty=None):
@@ -1220,6 +1266,12 @@ def targeted(info, thorough=False):
             one(dinv(method, args), acc, sty)
             one(connect(), {"kind": "raise", "cls": "ValueError", "msg": "denied:d"}, sty, tail=[[dinv(method, args), dinv(method, args, True)]])
             one(connect(), acc, sty, tail=[[dinv(method, args), dinv(method, args, True), dinv(method, args, mtype=1)]])
+        # fewer than 40 bytes that are already wrong; the peer then only listens (no further bytes, no half-close, no COMMTIMEOUT)
+        for wfk, pad in (("hdr:short6", 0), ("hdr:shorttag", 0), ("hdr:shorttag", 20), ("hdr:shorttag", 33), ("hdr:shortver", 0), ("hdr:shortver", 30)):
+            short = dict(connect(wf=wfk), pad=pad)
+            out.append({"sty": sty, "env": "plain", "conns": [{"vb": acc, "segs": [[short, {"special": "listen"}], [inv()]]}], "order": [[0, 0], [0, 1]]})
+            out.append({"sty": sty, "env": "plain", "conns": [{"vb": acc, "segs": [[connect(), inv()], [dict(short, type=4), {"special": "listen"}], [inv()]]}],
+                        "order": [[0, 0], [0, 1], [0, 2]]})
         # the peer goes away: before / inside its first message, and later
         for cut in (0, 3, 6, 20, 39, 40, 41, 60):
             one({"special": "gone", "trunc": connect(), "cut": cut}, acc, sty)
@@ -1273,6 +1325,7 @@ def targeted(info, thorough=False):
     one({"special": "gone", "trunc": connect(), "cut": 45}, acc, "thread", env="poolfull")
     one({"special": "gone", "trunc": None, "cut": 0}, acc, "thread", env="poolfull")
     one({"special": "silence"}, acc, "thread", env="poolfull")
+    out.append({"sty": "thread", "env": "poolfull", "conns": [{"vb": acc, "segs": [[dict(connect(wf="hdr:shorttag"), pad=9), {"special": "listen"}]]}], "order": [[0, 0]]})
     return out
 
 
@@ -1282,6 +1335,200 @@ def abort_cases(g, thorough):
     if thorough:
         pairs = [(sty, cls) for sty in ("thread", "multiplex") for cls in ABORT_NAMES]
     return [g.abort_case(sty, cls) for sty, cls in pairs]
+
+
+# ---------------------------------------------------------------- the proxy's side of the handshake
+SER_NAMES = {1: "serpent", 2: "marshal", 3: "json", 4: "msgpack"}
+REASON_TEXTS = {"validator": "denied:client-side-case", "unknown": "unknown object", "denied": None, "other": "message used serializer that is not accepted: 77"}
+REASON_COQ = {"validator": "RsnValidator", "unknown": "RsnUnknownObject", "denied": "RsnDenied", "other": "RsnOther"}
+
+
+def client_cases():
+    """a real Proxy, configured with each serializer, against a scripted peer answering its CONNECT with every kind of
+    answer through every serializer (in particular: another one than the proxy's), or not at all"""
+    out = []
+    for cs in sorted(known_serializers()):
+        for rs in sorted(known_serializers()):
+            for rsn in ("validator", "unknown", "denied", "other"):
+                out.append({"kind": "client", "client_ser": cs, "answer": {"type": 3, "ser": rs, "rsn": rsn}})
+            out.append({"kind": "client", "client_ser": cs, "answer": {"type": 2, "ser": rs, "rsn": None}})
+        out.append({"kind": "client", "client_ser": cs, "answer": {"type": 5, "ser": cs, "rsn": None}})
+        out.append({"kind": "client", "client_ser": cs, "answer": {"type": 6, "ser": 2, "rsn": None}})
+        out.append({"kind": "client", "client_ser": cs, "answer": None})
+    return out
+
+
+def run_client_case(env, case):
+    """returns the observed outcome: connected | rejected:<rsn> | noanswer | garbled | protocol (+ detail)"""
+    from Pyro5 import client, errors, protocol
+    sers = known_serializers()
+    ans = case["answer"]
+    text = None
+    if ans and ans["type"] == protocol.MSG_CONNECTFAIL:
+        text = REASON_TEXTS[ans["rsn"]] or env.deny_reason
+    lsock = socket.socket()
+    lsock.bind(("127.0.0.1", 0))
+    lsock.listen(1)
+    port = lsock.getsockname()[1]
+    done = threading.Event()
+
+    def peer():
+        try:
+            c, _ = lsock.accept()
+            c.settimeout(3)
+            hdr = b""
+            while len(hdr) < 40:
+                chunk = c.recv(40 - len(hdr))
+                if not chunk:
+                    break
+                hdr += chunk
+            dl, al = struct.unpack("!II", hdr[12:20])
+            seq = struct.unpack("!H", hdr[10:12])[0]
+            rest = b""
+            while len(rest) < dl + al:
+                rest += c.recv(dl + al - len(rest))
+            if ans is not None:
+                ser = sers[ans["ser"]]
+                if ans["type"] == protocol.MSG_CONNECTOK:
+                    payload = ser.dumps({"handshake": "hello", "meta": {"methods": ["ok"], "oneway": [], "attrs": []}})
+                elif ans["type"] == protocol.MSG_CONNECTFAIL:
+                    payload = ser.dumps(text)
+                else:
+                    payload = ser.dumps("x")
+                c.sendall(rd.raw_msg(ans["type"], 0, seq, ans["ser"], payload))
+                done.wait(3)
+            c.close()
+        except Exception:
+            pass
+    t = threading.Thread(target=peer, daemon=True)
+    t.start()
+    p = client.Proxy("PYRO:%s@127.0.0.1:%d" % (OBJ, port))
+    p._pyroSerializer = SER_NAMES[case["client_ser"]]
+    p._pyroTimeout = 3
+    detail = None
+    try:
+        p._pyroBind()
+        out = "connected"
+    except errors.ProtocolError as x:
+        out, detail = "protocol", str(x)
+    except errors.ConnectionClosedError as x:
+        out, detail = "noanswer", str(x)
+    except errors.CommunicationError as x:
+        detail = str(x)
+        out = "rejected:" + ans["rsn"] if (text is not None and ("rejected: " + text) in detail) else "garbled"
+    except Exception as x:
+        out, detail = "garbled", "%s: %s" % (type(x).__name__, x)
+    finally:
+        done.set()
+        try:
+            p._pyroRelease()
+        except Exception:
+            pass
+        t.join(3)
+        lsock.close()
+    return {"outcome": out, "detail": detail}
+
+
+def c_ccase(env, case, obs):
+    q = "(%s, %s, %s)" % (cbool(False), cbool(False), cbool(True))
+    a = case["answer"]
+    ans = "None" if a is None else "(Some (%s, %s, %s))" % (cN(a["type"]), cN(a["ser"]), "None" if a["rsn"] is None else "(Some %s)" % REASON_COQ[a["rsn"]])
+    o = obs["outcome"]
+    oc = {"connected": "CConnected", "noanswer": "CNoAnswer", "garbled": "CGarbled", "protocol": "CProtocol"}.get(o) or "(CRejected %s)" % REASON_COQ[o.split(":")[1]]
+    return "{| cc_q := %s; cc_client_ser := %s; cc_answer := %s; cc_obs := %s |}" % (q, cN(case["client_ser"]), ans, oc)
+
+
+def client_oracle(case, obs):
+    from Pyro5 import protocol
+    a = case["answer"]
+    if a and a["type"] == protocol.MSG_CONNECTFAIL and obs["outcome"] != "rejected:" + a["rsn"]:
+        return [("client-loses-rejection-reason", "proxy using %s was refused with a CONNECTFAIL written with %s: it raised %r instead of the rejection carrying the reason" % (
+            SER_NAMES[case["client_ser"]], SER_NAMES[a["ser"]], obs["detail"]))]
+    if a and a["type"] == protocol.MSG_CONNECTOK and obs["outcome"] != "connected":
+        return [("client-fails-accepted-handshake", "proxy using %s got CONNECTOK written with %s and raised %r" % (SER_NAMES[case["client_ser"]], SER_NAMES[a["ser"]], obs["detail"]))]
+    return []
+
+
+def proxy_cases():
+    """a real Proxy against the real daemons: refused early (full pool: answer through the fallback serializer), refused by the
+    validator / for an unknown object (answer through the proxy's serializer), accepted"""
+    out = []
+    for cs in sorted(known_serializers()):
+        out.append({"kind": "proxy", "sty": "thread", "env": "poolfull", "client_ser": cs, "scenario": "denied"})
+        for sty in ("thread", "multiplex"):
+            for sc in ("validator", "unknown", "ok"):
+                out.append({"kind": "proxy", "sty": sty, "env": "plain", "client_ser": cs, "scenario": sc})
+    return out
+
+
+def run_proxy_case(env, case):
+    from Pyro5 import client, errors
+    srv = env.server(case["sty"], case["env"])
+    sc = case["scenario"]
+    env.vb[None] = {"kind": "raise", "cls": "PermissionError", "msg": "denied:proxy-case"} if sc == "validator" else {"kind": "accept", "value": "hello"}
+    del EXEC_LOG[:]
+    p = client.Proxy("PYRO:%s@127.0.0.1:%d" % ("nope" if sc == "unknown" else OBJ, srv.port))
+    p._pyroSerializer = SER_NAMES[case["client_ser"]]
+    p._pyroTimeout = 3
+    res = {"outcome": None, "detail": None, "execs": 0}
+    try:
+        p._pyroBind()
+        res["outcome"] = "connected"
+        if sc == "ok":
+            p.ok(4242)
+    except errors.CommunicationError as x:
+        res["outcome"], res["detail"] = "CommunicationError", str(x)
+    except Exception as x:
+        res["outcome"], res["detail"] = type(x).__name__, str(x)
+    finally:
+        try:
+            p._pyroRelease()
+        except Exception:
+            pass
+        env.vb.pop(None, None)
+        quiesce(srv, env.base_busy())
+    res["execs"] = len(EXEC_LOG)
+    return res
+
+
+def proxy_oracle(env, case, obs):
+    sc = case["scenario"]
+    want = {"denied": env.deny_reason, "validator": "denied:proxy-case", "unknown": "unknown object"}.get(sc)
+    who = "proxy using %s against the %s server" % (SER_NAMES[case["client_ser"]], case["sty"])
+    bad = []
+    if sc == "ok":
+        if obs["outcome"] != "connected" or obs["execs"] != 1:
+            bad.append(("client-fails-accepted-handshake", "%s: accepted handshake, but the proxy got %s %r (executions: %d)" % (who, obs["outcome"], obs["detail"], obs["execs"])))
+        return bad
+    if obs["execs"]:
+        bad.append(("exec-without-handshake", "%s: refused (%s) but a method ran" % (who, sc)))
+    if obs["outcome"] != "CommunicationError" or ("rejected: " + want) not in (obs["detail"] or ""):
+        bad.append(("client-loses-rejection-reason", "%s: refused (%s) but the caller got %s %r instead of the rejection carrying %r" % (who, sc, obs["outcome"], obs["detail"], want)))
+    return bad
+
+
+def execute_client_side(ctx, env, model_ok, res):
+    cases = client_cases()
+    lits, kept = [], []
+    for case in cases:
+        obs = run_client_case(env, case)
+        res.seen(case, True)
+        res.count("client-side:" + obs["outcome"].split(":")[0])
+        for sig, what in client_oracle(case, obs):
+            res.violations.append({"signature": sig, "what": what, "case": case})
+        lits.append(c_ccase(env, case, obs))
+        kept.append((case, obs))
+    if model_ok:
+        for idx in vlib.run_cases(ctx, "k", IMPORTS, "ccase", "check_ccase", lits, shard=200):
+            res.mismatches.append({"component": "C08-client", "case": kept[idx][0], "impl": kept[idx][1]})
+    pc = sorted(proxy_cases(), key=lambda k: ENV_ORDER.index(k["env"]))
+    for case in pc:
+        obs = run_proxy_case(env, case)
+        res.seen(case, True)
+        res.count("proxy:" + case["scenario"])
+        for sig, what in proxy_oracle(env, case, obs):
+            res.violations.append({"signature": sig, "what": what, "case": case})
+    return cases + pc
 
 
 # ---------------------------------------------------------------- check.py interface
@@ -1311,7 +1558,8 @@ def classify_case(env, case):
 def short_obs(obs):
     return {"segs": [{"replies": [[r["type"], r["exc"], r["seq"], r["ser"], r["rsn"], r["text"]] for r in s["replies"]],
                       "execs": s["execs"], "end": s["end"]} for s in obs["segs"]],
-            "anomalies": obs["anomalies"], "quirks": [obs["q1"], obs["q2"], obs["q3"]], "loop_alive": obs.get("loop_alive")}
+            "anomalies": obs["anomalies"], "quirks": [obs["q1"], obs["q2"], obs["q3"]], "loop_alive": obs.get("loop_alive"),
+            "late_execs": obs.get("late_execs", [])}
 
 
 def nontrivial(case, obs):
@@ -1393,6 +1641,8 @@ def run(ctx, model_ok=True):
     try:
         cases = all_cases(ctx, info)
         execute(ctx, env, cases, model_ok, res)
+        env.stop()
+        execute_client_side(ctx, env, model_ok, res)
         for sty, q in env.quirks.items():
             res.quirks["%s:silent_unknown_serializer" % sty] = q[0]
             res.quirks["%s:silent_validator_connclosed" % sty] = q[1]
@@ -1428,6 +1678,8 @@ def search(ctx, broken):
             res.seen(case)
             for sig, what in oracle(env, case, obs, cls):
                 res.violations.append({"signature": sig, "what": what, "case": case})
+        env.stop()
+        execute_client_side(ctx, env, False, res)
     finally:
         env.stop()
     # concrete unknown failures first, then the ones already on file
@@ -1438,6 +1690,19 @@ def search(ctx, broken):
 def replay(ctx, case):
     env = Env()
     env.deny_reason = gen_info(ctx).get("deny_reason", env.deny_reason)
+    if case.get("kind") in ("client", "proxy"):
+        try:
+            if case["kind"] == "client":
+                obs = run_client_case(env, case)
+                bad = client_oracle(case, obs)
+                if not bad and vlib.run_cases(ctx, "r", IMPORTS, "ccase", "check_ccase", [c_ccase(env, case, obs)]):
+                    return True, {"mismatch": True, "impl": obs}
+            else:
+                obs = run_proxy_case(env, case)
+                bad = proxy_oracle(env, case, obs)
+            return bool(bad), {"oracle": bad, "impl": obs}
+        finally:
+            env.stop()
     try:
         cls = classify_case(env, case)
         obs = run_impl(env, case)
